@@ -337,7 +337,7 @@ func genTeardown(tier string, seed int64, only string) []*Case {
 		return out
 	}
 	for _, spec := range opSpecs {
-		if only != "" && spec.name != only {
+		if (only != "" && spec.name != only) || !cutCatalogue[spec.name] {
 			continue
 		}
 		variants := spec.variants
